@@ -29,10 +29,10 @@ def run(model, res, tier):
     res.trusted += ['hxsa abstract interpreter with integer linear forms', 'CPython ast']
     em, singles = error_singletons(model)
     E = dict((msg, n) for n, msg in singles.items())
-    _r1_r2(model, res)
-    _r3(model, res)
-    _r4(model, res, E)
-    _match_sorted(model, res, E)
+    H.safely(res, 'R1', 'r1_r2', _r1_r2, model, res)
+    H.safely(res, 'R3', 'r3', _r3, model, res)
+    H.safely(res, 'R4', 'r4', _r4, model, res, E)
+    H.safely(res, 'R1', 'match_sorted', _match_sorted, model, res, E)
     keys = []
     for n in ('INDEX', 'CHOOSE', 'MATCH'):
         m, f = model.registered(n)
@@ -302,6 +302,24 @@ def _r3(model, res):
                 res.violation('R3', 'function:CHOOSE:whole-values', m2.where(f2),
                               'CHOOSE(%d, {a0,a1,a2}) - one option, an array - must give %s; got %r: the array is one value, its items are not '
                               'the options' % (i, want, o.value), case={'index': i, 'values': 'one array'}, func=f2.name)
+    # the alternatives that are not addressed play no part - not even when one of them is an error value
+    for i, mkc, want in ((1, lambda: [Const(1), Sym('str', 'v1'), Sym('err', 'E')], 'v1'),
+                         (2, lambda: [Const(2), Sym('err', 'E'), Sym('str', 'v2')], 'v2'),
+                         (1, lambda: [Const(1), Sym('str', 'v1'), ListV([Sym('int', 'a0'), Sym('err', 'E')])], 'v1')):
+        try:
+            outs = _runs(model, 'CHOOSE', mkc)
+        except Unmodelled as e:
+            res.ob('R3', 'CHOOSE', {'index': i, 'values': 'an error among the others'}, True, 'undecided: %s' % e)
+            continue
+        for o in outs:
+            if o.imprecise:
+                continue
+            ok = o.kind == 'return' and getattr(o.value, 'name', None) == want
+            res.ob('R3', 'CHOOSE', {'index': i, 'values': 'an error value among the alternatives not addressed', 'expected': want}, ok, repr(o.value))
+            if not ok:
+                res.violation('R3', 'function:CHOOSE:unaddressed-error', m2.where(f2),
+                              'CHOOSE(%d, ...) with an error value among the alternatives that are not addressed must give %s; got %s %r: only the '
+                              'addressed value is selected (IF-like use: CHOOSE(k, "n/a", A/B))' % (i, want, o.kind, o.value), case={'index': i}, func=f2.name)
     # a fractional index: an error, or the truncated position - never the rounded one (i = 0.6 is < 1 and must not select v1)
     try:
         outs = _runs(model, 'CHOOSE', lambda: [Sym('float', 'i'), Sym('str', 'v1'), Sym('str', 'v2'), Sym('str', 'v3')])
